@@ -338,6 +338,19 @@ def registration(ctx, crate, crs, tag):
             ok_n = bool(sk["negative_assertions"])
             ctx.ob(R, fn, "requires:no-candidates->negative_assertions", ok_n, where_call(b, i),
                    "a requirement without candidates asserts its parent false")
+            # ... and only such a requirement: the flag that guards the assertion looks at the candidate lists of *all* version
+            # sets of the requirement (a union whose first member is empty still has candidates)
+            import c07
+            for pb in sk["negative_assertions"]:
+                for c in cs:
+                    if c.kind == "bool" and c.bb != cbb and q.edge_dominates(b, c.bb, c.target(True), pb) and \
+                            not _is_conflict_flag(b, c, cbb):
+                        t0 = b.blocks[c.bb]["term"]
+                        names = c07._chain_names(b, t0["d"])
+                        whole = bool(set(names) & {"all", "any", "flatten", "flat_map", "sum", "fold", "count", "max", "min"})
+                        partial = sorted(set(names) & {"first", "last", "get", "nth", "split_first", "split_last", "index", "next_back"})
+                        ctx.ob(R, fn, "requires:assertion-only-if-no-version-set-has-candidates", whole and not partial, where_call(b, pb),
+                               "the parent is asserted false only when every version set of the requirement is without candidates (flag computed by: %s)" % ", ".join(names[:6]))
         if ctor == "constrains":
             ok_c = _flag_guarded_push(b, crs, cbb, sk["conflicting_clauses"], True)
             ctx.ob(R, fn, "constrains:conflict->conflicting_clauses", ok_c, where_call(b, i),
@@ -410,6 +423,12 @@ CTOR_FIELDS = {  # constructor -> (variant, list of arg locals in field order)
     "requires": "Requires", "constrains": "Constrains", "forbid_multiple": "ForbidMultipleInstances",
     "lock": "Lock", "exclude": "Excluded", "learnt": "Learnt",
 }
+
+
+def _is_conflict_flag(b, c, cbb):
+    """The tested bool is (a field of) the tuple returned by the clause constructor at cbb."""
+    d = c.src if isinstance(c.src, dict) else {}
+    return d.get("k") == "call" and d.get("bb") == cbb
 
 
 def clause_shape(ctx, crate, crs, tag):
